@@ -427,6 +427,12 @@ func c19Parser(c *Ctx) {
 	sep, _ := constString(arg(sp, 1))
 	n, okn := constInt(arg(sp, 2))
 	c.Check(calleeName(sp) == "strings.SplitN" && sep == ":" && okn && n == 3, rule, "Unmarshal split", sp.Pos(), "SplitN(line, \":\", 3): a value may contain ':'", "the line is not split with SplitN(line, \":\", 3): values containing ':' are truncated or mis-split")
+	// the line buffer is not capped below the library default (64 KiB): a shorter cap ends the parse
+	// silently at the first long line (Scanner.Err is not consulted)
+	for _, ci := range callsTo(fn, "(*bufio.Scanner).Buffer") {
+		k, isC := constInt(arg(ci, 1))
+		c.Check(isC && k >= 64*1024, rule, "Unmarshal scanner-buffer", ci.Pos(), "line buffer limit >= 64 KiB", "the parser caps its line buffer below the default: a longer line stops the scan without an error and the rest of the file, malformed lines included, is dropped")
+	}
 	// loop head = block of scanner.Scan()
 	var head *ssa.BasicBlock
 	for _, ci := range callsTo(fn, "(*bufio.Scanner).Scan") {
